@@ -123,6 +123,7 @@ def run(ctx):
                        'run to completion under a wall-clock limit with hook count, sweep-follows-hook, iteration count and budget oracles')
     if ok:
         _ir.trace_inclusion(ctx, meta)
+        _ir.state_replay(ctx, meta)
     _ir.monitor(ctx)
     _ir.translation_failures(ctx, errors)
     ctx.sample({'theorem': 'C03_iterations_hooks_sweeps: c03_check k p = true -> forall hk preserving the population size, run p = Some (x\', evs, o\') -> '
